@@ -62,6 +62,18 @@ def generateSecretShares (S : Suite F E) (secret : F) (maxSigners minSigners : N
   | .error e => .error e
   | .panic s => .panic s
 
+/-- `if let IdentifierList::Custom(ids) = &identifiers { ids.len() != max_signers as usize }` -/
+def wrongIdentifierCount (identifiers : Option (List F)) (maxSigners : Nat) : Bool :=
+  match identifiers with
+  | some ids => decide (ids.length ≠ maxSigners)
+  | none => false
+
+/-- the identifier list `split` uses -/
+def identifierList (identifiers : Option (List F)) (maxSigners : Nat) : Outcome F (List F) :=
+  match identifiers with
+  | some ids => .ok ids
+  | none => defaultIdentifiers maxSigners
+
 /-- `keys::split` (`identifiers = none` is `IdentifierList::Default`).
     Returns the shares in map order, the public key package and the rest of the tape. -/
 def split (S : Suite F E) (key : F) (maxSigners minSigners : Nat)
@@ -71,19 +83,13 @@ def split (S : Suite F E) (key : F) (maxSigners minSigners : Nat)
   | .error e => .error e
   | .panic s => .panic s
   | .ok _ =>
-    if (match identifiers with
-        | some ids => decide (ids.length ≠ maxSigners)
-        | none => false) then .error .IncorrectNumberOfIdentifiers
+    if wrongIdentifierCount identifiers maxSigners then .error .IncorrectNumberOfIdentifiers
     else
       let vk := key • S.G
       match generateCoefficients S (minSigners - 1) t with
       | none => .panic "tape exhausted"
       | some (coefficients, t') =>
-        let idsO : Outcome F (List F) :=
-          match identifiers with
-          | some ids => .ok ids
-          | none => defaultIdentifiers maxSigners
-        match idsO with
+        match identifierList identifiers maxSigners with
         | .error e => .error e
         | .panic s => .panic s
         | .ok ids =>
